@@ -542,7 +542,7 @@ func (x *Exec) evalClauseDual(c *Clause, target *ssa.Function, cur, old *State, 
 					continue
 				}
 			}
-			if a := x.allocNamed(name, p.Type()); a != nil {
+			if a := x.allocNamedAt(name, p.Type(), c.ParamPos[name]); a != nil {
 				t, ok := cur.cells[a]
 				if !ok {
 					t = x.X.zero(deref(a.Type()))
@@ -605,6 +605,22 @@ func dedup(ts []Term) []Term {
 		}
 	}
 	return out
+}
+
+// allocNamedAt: the local variable cell declared at the given position (the variable the
+// type checker resolved the clause's identifier to, when several locals share the name);
+// falls back to allocNamed.
+func (x *Exec) allocNamedAt(name string, t types.Type, declPos string) *ssa.Alloc {
+	if declPos != "" {
+		for _, b := range x.fn.Blocks {
+			for _, in := range b.Instrs {
+				if a, ok := in.(*ssa.Alloc); ok && a.Comment == name && a.Pos().IsValid() && x.posKey(a.Pos()) == declPos {
+					return a
+				}
+			}
+		}
+	}
+	return x.allocNamed(name, t)
 }
 
 // allocNamed finds the local variable cell with the given source name (the
